@@ -7,9 +7,9 @@ use crate::asm::assemble;
 use crate::prog::*;
 use crate::util::*;
 
-struct Case {
-    fam: &'static str,
-    ast: Vec<Item>,
+pub struct Case {
+    pub fam: &'static str,
+    pub ast: Vec<Item>,
 }
 
 fn filler(n: usize, rng: &mut Rng) -> Vec<Item> {
@@ -107,7 +107,7 @@ fn fields(rng: &mut Rng, stack: bool, stride: usize, phase: usize) -> Vec<Case> 
         .collect()
 }
 
-fn pc_forms(stack: bool) -> Vec<(&'static str, i64)> {
+pub fn pc_forms(stack: bool) -> Vec<(&'static str, i64)> {
     let mut v = vec![("br", 9), ("ld", 9), ("ldi", 9), ("lea", 9), ("st", 9), ("sti", 9), ("jsr", 11)];
     if stack {
         v.push(("call", 10));
@@ -115,7 +115,7 @@ fn pc_forms(stack: bool) -> Vec<(&'static str, i64)> {
     v
 }
 
-fn mk_pc(k: &'static str, rng: &mut Rng, label: &str) -> Item {
+pub fn mk_pc(k: &'static str, rng: &mut Rng, label: &str) -> Item {
     match k {
         "br" => br_lab(rng.range(1, 7), label),
         "jsr" | "call" => pc_lab(k, 0, label),
@@ -179,7 +179,7 @@ fn labels(rng: &mut Rng, stack: bool, extra: usize) -> Vec<Case> {
 
 /// C04: operands at and around each field boundary; label distances one beyond the field;
 /// undefined / duplicate / case-differing labels; repeated `.orig`; structural errors.
-fn verdict(rng: &mut Rng, stack: bool, extra: usize) -> Vec<Case> {
+pub fn verdict(rng: &mut Rng, stack: bool, extra: usize) -> Vec<Case> {
     let mut out = Vec::new();
     let edge = |bits: i64| -> Vec<i64> {
         let half = 1i64 << (bits - 1);
@@ -270,7 +270,7 @@ fn verdict(rng: &mut Rng, stack: bool, extra: usize) -> Vec<Case> {
     out
 }
 
-fn random(rng: &mut Rng, stack: bool, n: usize) -> Vec<Case> {
+pub fn random(rng: &mut Rng, stack: bool, n: usize) -> Vec<Case> {
     (0..n).map(|_| Case { fam: "random", ast: random_program(rng, stack) }).collect()
 }
 
